@@ -65,6 +65,7 @@ structure Cfg where
   dupScalarOverScalar : Bool := true      -- D43s: a scalar whose name is taken by a scalar is silently dropped (the suite declares a Go-registered scalar again)
   dirArgWrapperAccepted : Bool := true    -- D44: directive arguments: List / NonNull of anything pass (`InCoercer`)
   subtypeNarrow : Bool := true            -- D45: covariance only for `T` vs `T!`, lists, non-null — not `Obj!` under `Iface`
+  dirLoopByVisited : Bool := true         -- D83: a directive reached twice by different ways counts as a definition loop
   dirRequiredUnchecked : Bool := true     -- D78: a directive use may leave out a required argument (directive and use in one document)
 
 def builtinScalars : List String := ["Int", "Float", "String", "Boolean", "ID", "Int64", "Float64", "Time"]
@@ -363,10 +364,25 @@ def dirLoopFrom (s : Schema) : Nat → List String → String → Bool
       (args.flatMap (·.dirs)).any (fun u => seen.contains u.name || dirLoopFrom s fuel (u.name :: seen) u.name)
     | _ => false
 
+/-- the loop test as coded at first (D83): every directive *seen* so far counts, so a directive reached twice by
+different ways — on two arguments, or through a diamond — is reported as a loop -/
+def dirLoopVisited (s : Schema) : Nat → List String → String → Bool × List String
+  | 0, seen, _ => (true, seen)
+  | fuel + 1, seen, n =>
+    match s.find? (fun d => d.isDirective && d.name == n) with
+    | some (.directive _ args _) =>
+      (args.flatMap (·.dirs)).foldl (fun (acc : Bool × List String) u =>
+        if acc.1 then acc
+        else if acc.2.contains u.name then (true, acc.2)
+        else dirLoopVisited s fuel (u.name :: acc.2) u.name) (false, seen)
+    | _ => (false, seen)
+
 /-- R11: directive locations are valid names; no directive definition cycles -/
-def ruleDirectiveDefs (s : Schema) : Bool :=
+def ruleDirectiveDefs (s : Schema) (byVisited : Bool := false) : Bool :=
   s.all (fun d => match d with
-    | .directive n _ locs => locs.all (validLocations.contains ·) && !dirLoopFrom s 16 [n] n
+    | .directive n _ locs =>
+      locs.all (validLocations.contains ·) &&
+      !(if byVisited then (dirLoopVisited s 16 [n] n).1 else dirLoopFrom s 16 [n] n)
     | _ => true)
 
 /-- R12: no `!` on `!`; the schema block has only query / mutation / subscription -/
@@ -380,12 +396,12 @@ def ruleShapes (s : Schema) : Bool :=
 def checkAll (cfg : Cfg) (s : Schema) : Bool :=
   ruleRefsDefined s && ruleDirectivesDefined s && ruleUnique cfg s && ruleNames charMap tokenClass s && ruleInOut cfg s &&
   ruleInterfaces cfg s && ruleUnions s && ruleNonEmpty s && ruleEnumValues s && ruleDirUses cfg s &&
-  ruleDirectiveDefs s && ruleShapes s
+  ruleDirectiveDefs s cfg.dirLoopByVisited && ruleShapes s
 
 /-- the property's notion: all rules, no deviation -/
 def strict : Cfg :=
   { fieldDirUsesUnchecked := false, argLocIsInputField := false, dupScalarDropped := false, dupScalarOverScalar := false,
-    dirArgWrapperAccepted := false, subtypeNarrow := false, dirRequiredUnchecked := false }
+    dirArgWrapperAccepted := false, subtypeNarrow := false, dirRequiredUnchecked := false, dirLoopByVisited := false }
 
 def wellFormed (s : Schema) : Bool := checkAll charMap tokenClass strict s
 
